@@ -53,7 +53,9 @@ def show(codes: List[int]) -> str:
 
 
 def check_language(model: Model, run: Run) -> None:
-    sites = [s for s in find_sites(model) if s.module == FILTER and s.name == "_ATTRIBUTE_PATTERN"]
+    from .c15 import attribute_pattern_name
+    pname = attribute_pattern_name(model)
+    sites = [s for s in find_sites(model) if s.module == FILTER and s.name == pname]
     run.floor("attribute pattern use sites", len(sites), 3)
     known = [k for k in load_known("C15") if k["rule"] == "F4-attribute-language"]
     roles = {}
